@@ -1,6 +1,10 @@
 package ledger
 
-import "fmt"
+import (
+	"fmt"
+
+	"github.com/formancehq/ledger/internal/storage/common"
+)
 
 type ErrInvalidQuery struct {
 	msg string
@@ -13,6 +17,12 @@ func (e ErrInvalidQuery) Error() string {
 func (e ErrInvalidQuery) Is(err error) bool {
 	_, ok := err.(ErrInvalidQuery)
 	return ok
+}
+
+// Unwrap makes the error match common.ErrInvalidQuery too, which is what the API layer
+// maps to a 400: without it an invalid query detected here is answered with a 500.
+func (e ErrInvalidQuery) Unwrap() error {
+	return common.NewErrInvalidQuery("%s", e.msg)
 }
 
 func NewErrInvalidQuery(msg string, args ...any) ErrInvalidQuery {
